@@ -87,4 +87,9 @@ def pairRow {γ : Type} (a b : γ) (it : Nat × Option Nat × Option Nat) : List
   | some t1, some t2 => [(it.1, [(t1, a), (t2, b)])]
   | _, _ => []
 
+/-- a scalar interpolation (sums, products by scalar weights, divisions by scalars) applied to a VECTOR attribute: numpy does it component by
+component -/
+def liftV3 (F : Attr Rat → Attr Rat → Attr Rat) (fa va : Attr V3) : Attr V3 :=
+  fun v => ⟨F (fun t => (fa t).x) (fun t => (va t).x) v, F (fun t => (fa t).y) (fun t => (va t).y) v, F (fun t => (fa t).z) (fun t => (va t).z) v⟩
+
 end Mouette.GeomSrc
